@@ -95,9 +95,7 @@ def layoutLine (line : String) : String :=
 def speclayoutLine (line : String) : String :=
   match parseTy (words line) with
   | some (t, []) =>
-    match ChibiVerif.Spec.Layout.specTy t with
-    | some l => showSpecLayout l
-    | none => "out-of-spec"
+    showSpecLayout (ChibiVerif.Spec.Layout.specTy t)
   | _ => "bad-op"
 
 def layoutMain (sub : String) : IO UInt32 := do
